@@ -35,6 +35,7 @@ ASSUMPTIONS = base.ASSUMPTIONS + [
     "exercised by C07 only",
 ]
 TRUSTED_EXTRA = base.TRUSTED_EXTRA
+pre = base.pre
 
 
 def run(ctx):
@@ -68,7 +69,7 @@ def attribute(ctx, case_text):
     os.makedirs(d, exist_ok=True)
     rp = os.path.join(d, "case.txt")
     open(rp, "w").write(case_text)
-    binpath = os.path.join(vlib.HARNESS, "target", "release", "persist")
+    binpath = os.environ.get("VERIF_PERSIST_BIN") or os.path.join(vlib.HARNESS, "target", "release", "persist")
     # the replayed case is the history; the failing crash point is the `crash L` / `round` pair appended to it
     lines = [l for l in case_text.split("\n") if l.strip()]
     crash = [l for l in lines if l.startswith("crash")]
